@@ -392,8 +392,12 @@ def map(
     row_operations = []
     for ind in range(len(to_render)):
         row_operations += [operations[ind]] * (1 if scalar_layer[ind] else 3)
+    # (a map without thickness has a single depth sample: nothing to reduce)
     binned = np.array(
-        [getattr(np, op)(binned[row], axis=0) for row, op in enumerate(row_operations)]
+        [
+            getattr(np, op)(binned[row], axis=0) if thick else binned[row][0]
+            for row, op in enumerate(row_operations)
+        ]
     )
 
     # Handle thick maps
